@@ -479,3 +479,55 @@ def gen_utils_call(g, pmax, name=None):
     if same:
         rec["same_object"] = same
     return rec
+
+
+# -- sempler.plot against the simulated display (DESIGN 12.1, "display peer").  Not part of TEMPLATES / NAMES: plotting
+# calls are decided by a random stream of their own after the history has been generated (c14.plot_calls), so that
+# the histories themselves are what they were without them.
+
+MODEL_MATRIX = {"lganm": "W", "anm": "A", "nd": "covariance"}
+
+
+def gen_plot_call(f, models):
+    """models: [(model id, type, p)] alive at generation time; in a third of the calls the application plots a matrix
+    that IS an attribute of one of its models (plot_graph(model.W)): a plotting function that tidies up its argument
+    in place then changes the model."""
+    name = f.choice(["plot.plot_graph", "plot.plot_matrix"])
+    p = f.randint(1, 6)
+    if name == "plot.plot_graph":
+        A = dag(f, p, weighted=f.random() < 0.6)
+        if f.random() < 0.2:
+            A = A * f.choice([1e-17, 1e-9, -1.0]) if A.dtype.kind == "f" else A
+        kw = {}
+        r = f.random()
+        if r < 0.3:
+            kw["labels"] = ["v%d" % i for i in range(p)]
+        elif r < 0.4:
+            kw["labels"] = list(range(10, 10 + p))
+        if f.random() < 0.6:
+            kw["weights"] = f.random() < 0.7
+    else:
+        r = f.random()
+        if r < 0.5:
+            A = sample_matrix(f, p, p)
+            for i in range(p):
+                for j in range(p):
+                    if f.random() < 0.3:
+                        A[i, j] = f.choice([0.0, 1e-17, -1e-20, 7.0])
+        elif r < 0.8:
+            A = dag(f, p, weighted=True, dtype=float)
+        else:
+            A = dag(f, p, weighted=False)
+        kw = {}
+        if f.random() < 0.3:
+            kw["thresh"] = f.choice([1e-16, 1e-8, 0.5])
+        if f.random() < 0.3:
+            kw["vmin"], kw["vmax"] = -1, 1
+        if f.random() < 0.2:
+            kw["formt"] = "%0.1f"
+    arg = enc_arg(A)
+    if models and f.random() < 0.35:
+        mid, mt, _ = f.choice(models)
+        arg = {"__ref__": mid, "attr": MODEL_MATRIX[mt]}
+    return {"op": "u.call", "fn": name, "args": [arg], "kw": {k: enc(v) for k, v in kw.items()},
+            "sweep_exc": "RuntimeError"}
